@@ -77,6 +77,9 @@ type shardState struct {
 }
 
 // ParentMain runs one check: `vmon parent <prop> <tier>`; returns the exit code.
+// ChildZones are the TZ values child processes run under.
+var ChildZones = []string{"Pacific/Chatham", "America/St_Johns", "UTC", "Asia/Kathmandu"}
+
 func ParentMain(propID, tier string, replayFile string) int {
 	start := time.Now()
 	p := Lookup(propID)
@@ -172,6 +175,9 @@ func ParentMain(propID, tier string, replayFile string) int {
 		}
 		cmd := exec.Command(bin, "child", string(b))
 		cmd.Env = append(os.Environ(), extraEnv...)
+		// the process's own time zone is part of the environment, not of "bytes and options": children run under different TZ
+		// values (replicas of one case list under different ones), so that a dependence on time.Local shows up
+		cmd.Env = append(cmd.Env, "TZ="+ChildZones[(a.Replica*3+a.Shard)%len(ChildZones)])
 		if hangCPU > 0 {
 			cmd.Env = append(cmd.Env, fmt.Sprintf("VMON_HANG_CPU=%d", hangCPU))
 		}
